@@ -23,6 +23,7 @@ var c03Inflight = map[string]string{
 	"after":   "delay=2300ms", // would be done at t_d + D + 0.1s
 	"never":   "hang",
 	"upgrade": "upgrade",
+	"lateup":  "delay=600ms;upgrade", // ordinary in-flight request when draining begins, upgraded at t_d + 0.5s
 	"offer":   "delay=600ms", // offers a protocol upgrade (Connection: Upgrade) that the target does not take; done at t_d + 0.5s
 }
 
@@ -43,7 +44,7 @@ func c03Configs(tier string) []c03cfg {
 	if tier == "quick" {
 		var cfgs []c03cfg
 		for _, cmd := range []string{"redeploy", "pause", "stop"} {
-			for _, in := range [][]string{nil, {"early"}, {"never"}, {"upgrade"}, {"after"}, {"before", "never"}, {"offer"}} {
+			for _, in := range [][]string{nil, {"early"}, {"never"}, {"upgrade"}, {"after"}, {"before", "never"}, {"offer"}, {"lateup"}} {
 				for _, l := range [][]string{{"quick"}, {"long"}} {
 					if in == nil && l[0] == "quick" {
 						continue
@@ -62,7 +63,7 @@ func c03Configs(tier string) []c03cfg {
 		return cfgs
 	}
 
-	kinds := []string{"early", "before", "after", "never", "upgrade", "offer"}
+	kinds := []string{"early", "before", "after", "never", "upgrade", "offer", "lateup"}
 	var sets [][]string
 	sets = append(sets, nil)
 	for _, k := range kinds {
@@ -189,7 +190,7 @@ func c03Scenario(c c03cfg) *Scenario {
 				plan = "delay=" + (d + 500*time.Millisecond).String()
 			}
 			spec := ReqSpec{ID: fmt.Sprintf("in%d-%s", i, k), Host: host, Plan: plan}
-			if k == "upgrade" {
+			if k == "upgrade" || k == "lateup" {
 				spec.Upgrade = true
 			}
 			if k == "offer" {
@@ -307,6 +308,13 @@ func c03Scenario(c c03cfg) *Scenario {
 					vs = append(vs, Violation{"C03", "Q4 overdue-request-not-answered-504", fmt.Sprintf("%s got %s", r.ID, r.Summary())})
 				} else if r.End != td+vD {
 					vs = append(vs, Violation{"C03", "Q4 overdue-request-cut-at-wrong-time", fmt.Sprintf("%s answered 504 at %v, drain started %v, deadline %v", r.ID, r.End, td, td+vD)})
+				}
+			case "lateup":
+				// in flight when draining began: may run on (now upgraded) until the deadline, not beyond
+				if !r.Hijacked {
+					vs = append(vs, Violation{"C03", "Q3 in-flight-request-cut-short", fmt.Sprintf("%s (upgrading 0.5s into the drain) got %s", r.ID, r.Summary())})
+				} else if r.HijackEOF < 0 || r.HijackEOF > td+vD {
+					vs = append(vs, Violation{"C03", "Q4 late-upgraded-connection-not-closed-at-deadline", fmt.Sprintf("%s saw EOF at %v (-1 = never), drain started %v, deadline %v", r.ID, r.HijackEOF, td, td+vD)})
 				}
 			case "upgrade":
 				if !r.Hijacked {
